@@ -2069,6 +2069,22 @@ func (r *Run) call(call *ast.CallExpr, env *Env) Val {
 			if v, ok := r.foldRegexp(fn.Name(), call, env); ok {
 				return v
 			}
+		case "maps":
+			// maps.Keys / maps.Values of a concrete map value: the list of its keys / values (the iterator forms are
+			// only ever handed to slices.Sorted / slices.Collect or ranged over)
+			if (fn.Name() == "Keys" || fn.Name() == "Values") && len(call.Args) == 1 {
+				if m, ok := r.eval(call.Args[0], env).(*VStruct); ok && m.Name == "map" {
+					l := VList{Key: "mapkeys", Elems: []Val{}}
+					for _, k := range m.Keys {
+						if fn.Name() == "Keys" {
+							l.Elems = append(l.Elems, k)
+						} else {
+							l.Elems = append(l.Elems, m.Fields[k.key()])
+						}
+					}
+					return l
+				}
+			}
 		case "path":
 			if v, ok := r.foldStrings("path."+fn.Name(), call, env); ok {
 				return v
@@ -2475,6 +2491,31 @@ func (r *Run) applyFunc(f *VFunc, vals []Val, pos token.Pos) (Val, bool) {
 // foldSlices interprets the search helpers of package slices as the loops they abbreviate, so that a
 // generator written with slices.ContainsFunc explores exactly like one written with a range loop.
 func (r *Run) foldSlices(name string, call *ast.CallExpr, env *Env, rt types.Type) (Val, bool) {
+	if (name == "Sorted" || name == "Collect" || name == "Clone") && len(call.Args) == 1 {
+		if l, ok := r.eval(call.Args[0], env).(VList); ok && l.Elems != nil {
+			out := VList{Key: l.Key, Elems: append([]Val{}, l.Elems...)}
+			if name == "Sorted" {
+				strs := make([]string, len(out.Elems))
+				for i, e := range out.Elems {
+					sv, ok := e.(VStr)
+					if !ok {
+						return nil, false
+					}
+					c, ok := sv.isConst()
+					if !ok {
+						return nil, false
+					}
+					strs[i] = c
+				}
+				sort.Strings(strs)
+				for i := range strs {
+					out.Elems[i] = constStr(strs[i])
+				}
+			}
+			return out, true
+		}
+		return nil, false
+	}
 	if len(call.Args) != 2 {
 		return nil, false
 	}
